@@ -265,7 +265,7 @@ def main():
     # ---------------------------------------------------------------- induction lemmas: schemas checked by Lean
     lean_map = {"tree_induction": ("Lemmas.lean", ["tree_induction", "all_nodes_below_root"]), "count-of-a-singleton-mask": ("Lemmas.lean", ["count_singleton"]),
                 "cumsum-of-nonnegatives": ("Lemmas.lean", ["cumsum_monotone"]), "count-of-two-marked-positions": ("Lemmas.lean", ["count_monotone", "count_two"]),
-                "traverse client rule": ("TraverseRule.lean", ["inv_of_reach", "traverse_rule_sound"]),
+                "traverse client rule": ("TraverseRule.lean", ["inv_of_reach", "traverse_rule_sound", "traverse_rule_sound_no_enter", "traverse_rule_sound_no_leave"]),
                 "whitespace-token lemma": ("Tokens.lean", ["token_split_unique", "tokens_unique"]),
                 "prim cut-property": ("Prim.lean", ["prim_tree_is_minimum", "prim_tree_connected", "prim_tree_weight_eq", "prim_tree_total_is_least"]),
                 "functional-cycle lemmas": ("FunctionalCycle.lean", ["conn_rec_iff", "closing_edge_gives_cycle", "cycle_gives_closing_edge", "functional_cycle"]),
